@@ -21,6 +21,7 @@ re-read; seek to the middle; SEEK_END - 1 and read past the end), followed by a 
 To add a layout: an entry `(tag, bytes)` in one of the `*_extra` functions (or in vlib/foreign.py).  A layout listed here is
 asserted VALID by the format's specification and accepted by the unchanged library (measured: evidence
 coverage.foreign_read.by_tag); a layout the reader rejects shows as clause `open`.
+(KF-SVX-BODY-PAD -- the IFF pad byte of an odd BODY chunk read as one more frame -- was found by this campaign and is repaired; nothing is waived here.)
 """
 import collections, re
 from . import foreign as FG, readcamp as R, scripts as S, kernels as K, abslean, absreplay, formats
@@ -114,7 +115,10 @@ def svx_extra(b):
     if b"BODY" not in ids:
         return []
     bi = ids.index(b"BODY")
-    return [("copyright-before-body", FG.iff_build(b"FORM", form, ch[:bi] + [(b"(c) ", junk(300))] + ch[bi:], False))]
+    # (KF-SVX-BODY-PAD is repaired: the pad byte of an odd BODY chunk -- iff_build writes it -- and chunks BEHIND BODY are not audio)
+    return [("copyright-before-body", FG.iff_build(b"FORM", form, ch[:bi] + [(b"(c) ", junk(300))] + ch[bi:], False)),
+            ("anno-after-body", FG.iff_build(b"FORM", form, ch + [(b"ANNO", junk(40, 3))], False)),
+            ("auth+anno-after-body", FG.iff_build(b"FORM", form, ch + [(b"AUTH", junk(6, 1)), (b"ANNO", junk(333, 2))], False))]
 
 
 EXTRA = {0x02: aiff_extra, 0x08: voc_extra, 0x01: wav_extra, 0x13: wav_extra, 0x18: caf_extra, 0x06: svx_extra}
@@ -241,12 +245,6 @@ def campaign(ctx, prop, quick=None, only_major=None):
         t["opened"] = len(lines) > 1 and lines[1].startswith("open=ok")
         if t["opened"]:
             judge.add(t["name"], t["geom"], t["refs"], t["rawref"], abslean._alive_pairs(sl, lines, t["start"]))
-            if svx_pad_class(t["f"], t["ch"], t["F"]):
-                # KF-SVX-BODY-PAD: the same transcript judged as "the file of F + 1 frames whose last frame is the pad byte (0)"
-                w = {"s16": 4, "s32": 8, "f32": 8, "f64": 16}
-                judge.add(t["name"] + "|pad", abslean.geom_line(t["ch"], t["F"] + 1, "r", seekable=t["seekable"], bw=t["bw"] or 0),
-                          {ty: hx + "0" * w[ty] for ty, hx in t["refs"].items()}, (t["rawref"] + "00") if t["rawref"] is not None else None,
-                          abslean._alive_pairs(sl, lines, t["start"]))
     verdicts = judge.run() if judge.items else {}
     findings = []
     for t in tests:
@@ -265,7 +263,6 @@ def campaign(ctx, prop, quick=None, only_major=None):
         stats["ops"] += len(sl) - t["start"]
         ctx.distinct.add("foreignread:%s:%s" % (formats.MAJOR_NAME.get(f.major), re.sub(r"\d+", "", t["tag"])))
         v = verdicts[t["name"]]
-        t["pad_explains"] = (t["name"] + "|pad") in verdicts and verdicts[t["name"] + "|pad"].status == "ok" and bool(v.fails)
         for (k, tag, tx) in v.fails[:6]:
             line = t["start"] + k
             cat = abslean.TAG_CAT.get(tag, tag)
@@ -297,31 +294,15 @@ def campaign(ctx, prop, quick=None, only_major=None):
     return findings, stats, dict(by_tag), tests
 
 
-def svx_pad_class(f, ch, F):
-    """KF-SVX-BODY-PAD: 8SVX, one byte per frame, odd BODY length -> the IFF pad byte is counted / delivered as ONE more frame.  The symptom is
-    pinned by judging the same transcript a second time as a file of F + 1 frames whose last frame is 0 (`pad_explains`)"""
-    return f.major == 0x06 and f.codec == 0x01 and ch == 1 and F % 2 == 1
-
-
 def run(ctx, prop):
     from .props._handle_common import CATS
     findings, stats, by_tag, tests = campaign(ctx, prop)
     ctx.count(stats["ops"], tag="foreign-read")
     reported = collections.Counter()
     nrep = 0
-    kf = next((k for k in ctx.known if k["id"] == "KF-SVX-BODY-PAD" and k.get("status") == "known" and prop in k.get("properties", [])), None)
-    kf_fails = ctx.witness_still_fails(kf) if kf else False
-    kf_printed = False
     for (name, f, ch, line, tag, cat, text, replay) in findings:
         if cat not in CATS[prop]:
             stats["failures_of_other_properties"] += 1
-            continue
-        t = next(t for t in tests if t["name"] == name)
-        if kf_fails and svx_pad_class(f, ch, t["F"]) and t.get("pad_explains"):
-            stats["known_svx_body_pad"] += 1
-            if not kf_printed:
-                ctx.known_finding(kf)
-                kf_printed = True
             continue
         stats["failures"] += 1
         key = (f.major, cat)
